@@ -77,6 +77,27 @@ def check_A(item, r):
     elif ci == 2:
         base = QuickMDP(next_state_dist=base.next_state_dist, reward=base.reward, actions=base.actions,
                         initial_state_dist=base.initial_state_dist, is_absorbing=base.is_absorbing, discount_rate=float(spec.gamma))
+    # a second base MDP of the same Python class (other rewards, other discount) with its own overrides: derived MDPs of
+    # both are alive at the same time and must not influence each other
+    sib_T = tuple(tuple((a, d, (tuple(x - 3 for x in rw) if isinstance(rw, tuple) else rw - 3)) for a, d, rw in row) for row in spec_item[2])
+    spec2 = Spec(spec_item[:2] + (sib_T,) + spec_item[3:5] + (spec.gamma / 2,))
+    base2 = build.SpecMDP(spec2, SLAB[li], ALAB[li])
+    if ci == 1:
+        base2 = QuickTabularMDP(next_state_dist=base2.next_state_dist, reward=base2.reward, actions=base2.actions,
+                                initial_state_dist=base2.initial_state_dist, is_absorbing=base2.is_absorbing,
+                                discount_rate=float(spec2.gamma))
+    elif ci == 2:
+        base2 = QuickMDP(next_state_dist=base2.next_state_dist, reward=base2.reward, actions=base2.actions,
+                         initial_state_dist=base2.initial_state_dist, is_absorbing=base2.is_absorbing, discount_rate=float(spec2.gamma))
+    over2 = {
+        'initial_state_dist': lambda: DictDistribution({sl(0): 1.0}),
+        'actions': lambda s: (al('a'), al('a')),
+        'next_state_dist': lambda s, a: DictDistribution({sl(0): 1.0}),
+        'reward': lambda s, a, ns: 7.0,
+        'is_absorbing': lambda s: s == sl(spec.n - 1),
+        'state_list': ('only',),
+        'action_list': ('noop2',),
+    }
     tabular = ci != 2
     states = [sl(s) for s in range(spec.n)]
     if tabular and (li + ci) % 2 == 0:
@@ -137,6 +158,22 @@ def check_A(item, r):
                 if got[c] != want:
                     r.violation('augment_component_differs', {'overridden': sub, 'component': c, 'class': type(base).__name__,
                                                                'got': repr(got[c])[:300], 'want': repr(want)[:300]}, item)
+            # derive a second MDP (other base instance of the same class, same overridden components, other functions),
+            # then look at the first one again
+            try:
+                aug2 = augment(base2, **{c: over2[c] for c in sub})
+                aug2.discount_rate, aug2.initial_state_dist()
+                again = view(aug, base_actions)
+                r.count('transitions')
+                for c in bview:
+                    if again[c] != got[c]:
+                        r.violation('augment_earlier_derived_mdp_changed_by_a_later_one',
+                                    {'overridden': sub, 'component': c, 'class': type(base).__name__,
+                                     'before': repr(got[c])[:300], 'after': repr(again[c])[:300]}, item)
+                        break
+            except BaseException as e:
+                r.violation('augment_exception', {'overridden': sub, 'error': repr(e)[:300], 'class': type(base).__name__,
+                                                  'second_derived_mdp': True}, item)
             # the derived MDP's array views must show its own (possibly overridden) functions, whatever the base had cached
             if tabular and 'state_list' not in sub and 'action_list' not in sub:
                 try:
